@@ -67,6 +67,7 @@ let runners : (string * (z list -> z list)) list = [
   "dreduce", run_dreduce;
   "hash", run_hash;
   "sol", run_sol;
+  "buf", run_buf;
   "suspend", run_suspend;
   "once", run_once;
 ]
